@@ -17,6 +17,7 @@ Time: the wheel's `time` moves only with `tick` (one unit per tick); the heap's 
 -/
 import Fatchoy.Lemmas.C05Ex
 import Fatchoy.Lemmas.C05Dues
+import Fatchoy.Lemmas.C05BinHeapEx
 namespace Fatchoy.C05
 
 /-- the regenerated constants are exactly the geometry the proofs are carried out for
@@ -240,6 +241,137 @@ theorem C05_heap_order (G : Geom) {s : HS} (hr : HReach G s) :
     s.f.log.Pairwise (fun newer older => older.1 ≤ newer.1) ∧ ∀ e ∈ s.f.log, e.1 ≤ s.now :=
   hr.logOK
 
+/-! ## the binary heap inside the model (Model/C05BinHeap.lean)
+
+`BHeap` is the ARRAY of `timerHeap`; `bup` / `bdown` / `bpush` / `bpop` / `bremove` / `bfix` mirror container/heap composed
+with the `timerHeap` methods statement for statement (the source texts they were written from are regenerated into
+Gen/C05.lean and pinned below); the differential run compares the array LAYOUT (`harr` lines) after every heap-changing
+step.  `key a i` = `a[i].n` (id, deadline, period), `idx a i` = `a[i].index`, `keys a` = the nodes in array order,
+`BInv a` = heap order + index invariant, `Distinct a` = ids pairwise distinct, `babs a` = the nodes insertion-sorted by
+`Less` = the list that stands for the heap in `HS`; `BS` = the heap scheduler over the array, `BS.toHS` its abstraction. -/
+
+/-- the source the structural model mirrors: container/heap of the Go tree in use and the `timerHeap` methods, as
+regenerated on every run (alpha-normalised one-line texts), are the texts the model was written from -/
+theorem C05_binheap_source :
+    [Gen.C05.goheap_Init, Gen.C05.goheap_Push, Gen.C05.goheap_Pop, Gen.C05.goheap_Remove, Gen.C05.goheap_Fix,
+      Gen.C05.goheap_up, Gen.C05.goheap_down] = heapSrcGo ∧
+    [Gen.C05.pin_timerHeap_Len, Gen.C05.pin_timerHeap_Less, Gen.C05.pin_timerHeap_Swap, Gen.C05.pin_timerHeap_Push,
+      Gen.C05.pin_timerHeap_Pop, Gen.C05.pin_TimerQueue_delNode] = heapSrcRepo ∧
+    Gen.C05.heapCalls = heapSites := ⟨rfl, rfl, rfl⟩
+
+/-- what `BInv` says, on the array itself: `∀ i > 0, ¬Less(a[i], a[parent i])` and `a[i].index = i` -/
+theorem C05_binheap_inv_iff (a : BHeap) :
+    BInv a ↔ (∀ i (h : i < a.size), 0 < i → hless a[i].n (a[(i - 1) / 2]'(by omega)).n = false) ∧
+      (∀ i (h : i < a.size), a[i].index = i) := BInv_iff a
+
+/-- the empty heap satisfies both invariants (`make(timerHeap, 0, 32)`) -/
+theorem C05_binheap_empty : BInv #[] ∧ Distinct #[] := ⟨BInv.empty, List.nodup_nil⟩
+
+/-- PUSH, any size and contents: heap order and index invariant are kept (established from the empty heap), the size
+grows by one, the multiset of nodes gains exactly `x` -/
+theorem C05_binheap_push (a : BHeap) (x : HNode) (h : BInv a) :
+    BInv (bpush a x) ∧ (bpush a x).size = a.size + 1 ∧ (keys (bpush a x)).Perm (x :: keys a) :=
+  bpush_spec a x h
+
+/-- POP, any non-empty heap: it cannot panic, the invariants are kept, the popped node is the root `a[0]` and leaves with
+`index = -1`, the multiset of nodes loses exactly it -/
+theorem C05_binheap_pop (a : BHeap) (h : BInv a) (hne : a.size ≠ 0) :
+    ∃ a' v, bpop a = some (a', v) ∧ BInv a' ∧ a'.size + 1 = a.size ∧ v.n = key a 0 ∧ v.index = -1 ∧
+      (keys a).Perm (v.n :: keys a') :=
+  bpop_spec a h hne
+
+/-- REMOVE i, any position (last, root, middle; the moved node may sift down or UP): no panic, invariants kept, the
+removed node is `a[i]` and leaves with `index = -1`, the multiset loses exactly it -/
+theorem C05_binheap_remove (a : BHeap) (h : BInv a) (i : Nat) (hi : i < a.size) :
+    ∃ a' v, bremove a i = some (a', v) ∧ BInv a' ∧ a'.size + 1 = a.size ∧ v.n = key a i ∧ v.index = -1 ∧
+      (keys a).Perm (v.n :: keys a') :=
+  bremove_spec a h i hi
+
+/-- FIX i after an ARBITRARY change of `a[i].deadline`: no panic, invariants re-established, same size, the multiset is
+the old one with the changed node in place of the old `a[i]` -/
+theorem C05_binheap_fix (a : BHeap) (h : BInv a) (i d : Nat) (hi : i < a.size) :
+    ∃ a', bfix (bsetDeadline a i d) i = some a' ∧ BInv a' ∧ a'.size = a.size ∧
+      (keys a').Perm ((keys a).set i { key a i with deadline := d }) :=
+  bfix_set_spec a h i d hi
+
+/-- under the heap order the root is the `Less`-minimum: no node sorts before `a[0]` -/
+theorem C05_binheap_root_min (a : BHeap) (h : BInv a) (m : HNode) (hm : m ∈ keys a) : hless m (key a 0) = false :=
+  root_min a h m hm
+
+/-- `babs` is what it is called: sorted by `Less` (no later element sorts before an earlier one), same nodes -/
+theorem C05_binheap_abs_sorted (a : BHeap) :
+    (babs a).Pairwise (fun x y => hless y x = false) ∧ (babs a).Perm (keys a) ∧ (babs a).length = a.size :=
+  ⟨isort_lsorted _, babs_perm a, babs_length a⟩
+
+/-- REFINEMENT, Push: `abs (Push a x) = sortedInsert x (abs a)` — the `hinsert` of the sorted-list model -/
+theorem C05_binheap_abs_push (a : BHeap) (x : HNode) (h : BInv a) (hd : Distinct a) (hx : ∀ m ∈ keys a, m.id ≠ x.id) :
+    babs (bpush a x) = hinsert x (babs a) :=
+  babs_bpush a x h (by
+    simp only [hids, List.map_cons, List.nodup_cons, List.mem_map, not_exists, not_and]
+    exact ⟨fun m hm => hx m hm, hd⟩)
+
+/-- REFINEMENT, Pop: the popped node is `(abs a).head`, `abs (Pop a) = (abs a).tail`; distinctness is kept -/
+theorem C05_binheap_abs_pop (a a' : BHeap) (v : BNode) (h : BInv a) (hd : Distinct a) (e : bpop a = some (a', v)) :
+    babs a = v.n :: babs a' ∧ BInv a' ∧ Distinct a' ∧ v.index = -1 :=
+  babs_bpop a a' v h hd e
+
+/-- REFINEMENT, Remove: `abs (Remove a i) = (abs a).erase a[i]` = `abs a` without the node of that id (the `filter` the
+sorted-list model uses for `delNode`) -/
+theorem C05_binheap_abs_remove (a a' : BHeap) (v : BNode) (i : Nat) (h : BInv a) (hd : Distinct a)
+    (e : bremove a i = some (a', v)) :
+    i < a.size ∧ v.n = key a i ∧ babs a' = (babs a).filter (fun m => decide (m.id ≠ (key a i).id)) ∧
+      babs a' = (babs a).erase (key a i) ∧ BInv a' ∧ Distinct a' ∧ v.index = -1 :=
+  babs_bremove a a' v i h hd e
+
+/-- REFINEMENT, Fix after a deadline change at i: `abs` = the old `abs` without `a[i]`, the changed node re-inserted -/
+theorem C05_binheap_abs_fix (a a' : BHeap) (i d : Nat) (h : BInv a) (hd : Distinct a) (hi : i < a.size)
+    (e : bfix (bsetDeadline a i d) i = some a') :
+    babs a' = hinsert { key a i with deadline := d } ((babs a).filter (fun m => decide (m.id ≠ (key a i).id))) ∧
+      BInv a' ∧ Distinct a' :=
+  babs_bfix a a' i d h hd hi e
+
+/-- COMPOSITION, the loop of `trigger(now)`: run over the array it yields the same `expires` list and the abstraction
+of its final state is the final state of the loop over the sorted list (or neither terminates) -/
+theorem C05_binheap_trigger_refines (now maxId fuel : Nat) (b : BS) (acc : List (Nat × Nat)) (hi : BInv b.arr)
+    (hd : Distinct b.arr) :
+    (match BS.triggerLoop now maxId fuel b acc with
+     | some (b', out) => HS.triggerLoop now maxId fuel b.toHS acc = some (b'.toHS, out) ∧ BInv b'.arr ∧ Distinct b'.arr
+     | none => HS.triggerLoop now maxId fuel b.toHS acc = none) :=
+  triggerLoop_sim now maxId fuel b acc hi hd
+
+/-- COMPOSITION, one action (client call or worker step) from any state whose abstraction satisfies the heap scheduler's
+invariant: same outcome (ok / blocked / panic), same output, abstraction and structural invariant kept -/
+theorem C05_binheap_step_refines (G : Geom) (b : BS) (hi : BInv b.arr) (hh : HInv b.toHS) (a : Act) :
+    (match BS.step G b a with
+     | .ok b' o => HS.step G b.toHS a = .ok b'.toHS o ∧ BInv b'.arr
+     | .blocked => HS.step G b.toHS a = .blocked
+     | .panic => HS.step G b.toHS a = .panic) :=
+  step_sim G b hi hh a
+
+/-- COMPOSITION, every history: the heap scheduler over the structural heap, started fresh at any time and run through
+ANY action list, produces the same outputs, and its final state abstracts to the final state of the scheduler over
+the sorted list — same table, queues, cancelled marks, same delivery log and due times (`f` is shared), heap =
+`babs` of the array; the array satisfies heap order + index invariant; if one run fails so does the other -/
+theorem C05_binheap_refines_sorted (G : Geom) (time : Nat) (acts : List Act) :
+    (match BS.runO G (BS.init time) acts with
+     | some (b', outs) => HS.runO G (HS.init time) acts = some (b'.toHS, outs) ∧ HS.run G (HS.init time) acts = some b'.toHS ∧
+         b'.toHS.f.log = b'.f.log ∧ BInv b'.arr ∧ Distinct b'.arr
+     | none => HS.runO G (HS.init time) acts = none ∧ HS.run G (HS.init time) acts = none) := by
+  have h := runO_sim G acts (BS.init time) BInv.empty (HInv.init time)
+  rw [toHS_init] at h
+  cases hr : BS.runO G (BS.init time) acts with
+  | some r =>
+    rw [hr] at h
+    exact ⟨h.1, by rw [HS.runO_run, h.1]; rfl, rfl, h.2.1, distinct_of_hinv _ h.2.2⟩
+  | none =>
+    rw [hr] at h
+    exact ⟨h, by rw [HS.runO_run, h]; rfl⟩
+
+/-- hence every state the structural scheduler reaches abstracts to a state the sorted-list scheduler reaches: all
+`C05_heap_*` theorems above (stated for `HReach`) hold of `b.toHS` -/
+theorem C05_binheap_reach (G : Geom) {b : BS} (h : BReach G b) : HReach G b.toHS ∧ BInv b.arr ∧ Distinct b.arr :=
+  ⟨h.sim.1, h.sim.2, distinct_of_hinv b h.sim.1.inv⟩
+
 /-! ## non-vacuity
 
 `exW` (Lemmas/C05Ex.lean): a wheel two ticks before the 2^32 wrap of its position, time 7, holding a
@@ -283,5 +415,50 @@ example (s' : HS) (h : HS.run geom exH [.clock 2, .tick, .clock 2, .tick, .tick]
 example (s' : HS) (h : HS.run geom exH [.clock 2, .tick, .clock 2, .tick, .tick] = some s') :
     hhas s'.heap 2 1006 2 ∧ 2 ∈ s'.f.refer ∧ entries s'.f.log 2 = [(1004, 2), (1002, 2)] ++ entries exH.f.log 2 :=
   C05_heap_periodic geom exH_reach 2 1002 2 (by decide) (by decide) (by decide) _ (by decide) h
+
+/-! ### the structural heap: non-vacuity
+
+`exArr` (Lemmas/C05BinHeapEx.lean): a three-node array (root id 2 due 1002 period 2; id 4 due 1003; id 1 due 1003 — a tie, broken by id DESC), in
+heap order with correct index fields and distinct ids; the theorems applied to it. -/
+
+example : BInv exArr ∧ Distinct exArr ∧ exArr.size = 3 ∧ babs exArr = [⟨2, 1002, 2⟩, ⟨4, 1003, 0⟩, ⟨1, 1003, 0⟩] :=
+  ⟨exArr_inv, exArr_distinct, by decide, by decide⟩
+
+/-- C05_binheap_push / _abs_push applied (a new node with the root's deadline and a larger id sorts FIRST) -/
+example : BInv (bpush exArr ⟨7, 1002, 0⟩) ∧ babs (bpush exArr ⟨7, 1002, 0⟩) = hinsert ⟨7, 1002, 0⟩ (babs exArr) :=
+  ⟨(C05_binheap_push exArr _ exArr_inv).1, C05_binheap_abs_push exArr _ exArr_inv exArr_distinct (by decide)⟩
+
+/-- C05_binheap_pop / _remove / _fix applied -/
+example : ∃ a' v, bpop exArr = some (a', v) ∧ BInv a' ∧ v.n = ⟨2, 1002, 2⟩ ∧ v.index = -1 ∧ babs exArr = v.n :: babs a' := by
+  obtain ⟨a', v, e, h1, _, h3, h4, _⟩ := C05_binheap_pop exArr exArr_inv (by decide)
+  exact ⟨a', v, e, h1, h3, h4, (C05_binheap_abs_pop exArr a' v exArr_inv exArr_distinct e).1⟩
+
+example : ∃ a' v, bremove exArr 1 = some (a', v) ∧ BInv a' ∧ v.n = ⟨4, 1003, 0⟩ ∧ v.index = -1 ∧
+    babs a' = [⟨2, 1002, 2⟩, ⟨1, 1003, 0⟩] := by
+  obtain ⟨a', v, e, h1, _, h3, h4, _⟩ := C05_binheap_remove exArr exArr_inv 1 (by decide)
+  refine ⟨a', v, e, h1, h3, h4, ?_⟩
+  rw [(C05_binheap_abs_remove exArr a' v 1 exArr_inv exArr_distinct e).2.2.1]
+  decide
+
+example : ∃ a', bfix (bsetDeadline exArr 0 1004) 0 = some a' ∧ BInv a' ∧
+    babs a' = [⟨4, 1003, 0⟩, ⟨1, 1003, 0⟩, ⟨2, 1004, 2⟩] := by
+  obtain ⟨a', e, h1, _, _⟩ := C05_binheap_fix exArr exArr_inv 0 1004 (by decide)
+  refine ⟨a', e, h1, ?_⟩
+  rw [(C05_binheap_abs_fix exArr a' 0 1004 exArr_inv exArr_distinct (by decide) e).1]
+  decide
+
+/-- C05_binheap_root_min applied -/
+example : hless ⟨1, 1003, 0⟩ (key exArr 0) = false := C05_binheap_root_min exArr exArr_inv _ (by decide)
+
+/-- C05_binheap_trigger_refines / _step_refines hypotheses: a structural scheduler state over `exArr` -/
+example : BInv (BS.mk 1004 exArr Front.init).arr ∧ Distinct (BS.mk 1004 exArr Front.init).arr := ⟨exArr_inv, exArr_distinct⟩
+
+/-- C05_binheap_refines_sorted / _reach: every action list qualifies; e.g. three starts, accepted, one tick -/
+example : BReach geom (BS.init 1000) := BReach.init 1000
+example (r : BS × List Out) (h : BS.runO geom (BS.init 1000) [.after 3, .every 2, .add, .add, .clock 2, .tick] = some r) :
+    HS.run geom (HS.init 1000) [.after 3, .every 2, .add, .add, .clock 2, .tick] = some r.1.toHS ∧ BInv r.1.arr := by
+  have := C05_binheap_refines_sorted geom 1000 [.after 3, .every 2, .add, .add, .clock 2, .tick]
+  rw [h] at this
+  exact ⟨this.2.1, this.2.2.2.1⟩
 
 end Fatchoy.C05
